@@ -61,8 +61,8 @@ class C19(Prop):
             cases.append({"kind": "VarBytes", "v": [rng.randrange(256) for _ in range(rng.choice([0, 1, 2, 255, rng.randrange(256)]))],
                           "trailing": tr()})
         for bit in range(8):
-            for _ in range(8 if tier == "quick" else 64):
-                cases.append({"kind": "BitArray", "v": bit, "byte": rng.randrange(256), "trailing": tr()})
+            for byte in ([0, 1, 0x80, 0xFF, 0x55] + [rng.randrange(256) for _ in range(6)] if tier == "quick" else range(256)):
+                cases.append({"kind": "BitArray", "v": bit, "byte": byte, "trailing": tr()})
         return cases
 
     def run_impl(self, case):
@@ -104,10 +104,12 @@ class C19(Prop):
                 o2 = DT.VarBytes.from_bytes(packed + tr)
                 return {"packed": list(packed), "size0": s0, "value": [3, list(o2.value)], "size": o2.size}
             if k == "BitArray":
+                src = DT.BitArray(value=case["byte"], index=v)
+                packed = src.to_bytes()                     # the byte that carries the eight flags
                 o = DT.BitArray(index=v)
-                o.unpack(bytes([case["byte"]]) + tr)
+                o.unpack(packed + tr)
                 nxt = DT.BitArray().next(v)
-                return {"value": [4, bool(o.value)], "size": o.size, "next": nxt}
+                return {"value": [4, bool(o.value)], "size": o.size, "next": nxt, "packed": list(packed), "src_value": bool(src.value)}
         except Exception as e:  # noqa: BLE001
             return {"error": type(e).__name__}
 
@@ -141,7 +143,8 @@ class C19(Prop):
         unp = model.call_many("dt_unpack", [[[5], c["v"], bytes([c["byte"]]) + bytes(c["trailing"])] for _, c in bits])
         nxt = model.call_many("bit_next", [c["v"] for _, c in bits])
         for (i, c), u, nx in zip(bits, unp, nxt):
-            out[i] = {"value": [4, bool(u[0][0][1])], "size": u[0][1], "next": nx}
+            out[i] = {"value": [4, bool(u[0][0][1])], "size": u[0][1], "next": nx, "packed": [c["byte"]],
+                      "src_value": bool((c["byte"] >> c["v"]) & 1)}
         return out
 
     def spec_many(self, cases, behaviours):
@@ -157,7 +160,7 @@ class C19(Prop):
                            and b["packed"] == [len(c["v"])] + c["v"])
             elif k == "BitArray":
                 res.append(b["value"] == [4, bool((c["byte"] >> c["v"]) & 1)] and b["size"] == (1 if c["v"] == 7 else 0)
-                           and b["next"] == (c["v"] + 1) % 8)
+                           and b["next"] == (c["v"] + 1) % 8 and b["packed"] == [c["byte"]] and b["src_value"] == bool((c["byte"] >> c["v"]) & 1))
             else:
                 t, v = self._mtype(c)
                 fixed_args.append([t, v, bytes(b["packed"]), b["value"], b["size"]])
